@@ -5,7 +5,7 @@ from hypothesis import strategies as st
 
 from conda_content_trust import authentication as A
 
-from vlib import gen_deleg, gen_json as G, ref_schema, ref_verify as RV
+from vlib import gen_deleg, gen_json as G, ref_schema, ref_verify as RV, related
 from vlib.runner import Unit, Violation
 
 PROPERTY = "C05"
@@ -28,6 +28,46 @@ def satisfied_roles(case):
     return out
 
 
+def _compare(role, U, T, gpg, what):
+    expect = RV.delegation(role, U, T, gpg)
+    observed, exc = RV.outcome(A.verify_delegation, role, U, T, gpg=gpg)
+    bad = RV.mismatch(expect, observed)
+    if bad:
+        raise Violation("verify_delegation(%r) on a related input presented after an earlier call (%s): %s"
+                        % (role, what, bad),
+                        bucket=("false accept" if observed == "accept" else "false reject/class " + observed)
+                        + " verify_delegation (history)")
+    return 1
+
+
+def history_probes(role, U, T, gpg):
+    """Right after the main call, in the same process: trusted metadata with the same type/version/timestamp but
+    other delegations; the trusted object changed in place; the same signatures on a changed payload."""
+    n = 0
+    dels = T["signed"]["delegations"]
+    others = [r for r in dels if r != role]
+    # same identity fields, the asked role's rule swapped with another role's (new object)
+    T2 = copy.deepcopy(T)
+    if role in dels and others:
+        T2["signed"]["delegations"][role], T2["signed"]["delegations"][others[0]] = \
+            T2["signed"]["delegations"][others[0]], T2["signed"]["delegations"][role]
+        n += _compare(role, copy.deepcopy(U), T2, gpg, "trusted metadata with same type/version/timestamp, rules swapped")
+    # the role removed from / added to the SAME trusted object in place
+    T3 = copy.deepcopy(T)
+    RV.outcome(A.verify_delegation, role, copy.deepcopy(U), T3, gpg=gpg)
+    if role in T3["signed"]["delegations"]:
+        del T3["signed"]["delegations"][role]
+    elif others:
+        T3["signed"]["delegations"][role] = copy.deepcopy(T3["signed"]["delegations"][others[0]])
+    n += _compare(role, copy.deepcopy(U), T3, gpg, "the SAME trusted object changed in place")
+    # same signatures, changed payload
+    U2 = copy.deepcopy(U)
+    RV.outcome(A.verify_delegation, role, U2, T, gpg=gpg)
+    if related.inplace_mutate(U2["signed"]):
+        n += _compare(role, U2, T, gpg, "the SAME untrusted payload object changed in place")
+    return n
+
+
 def check_case(case):
     role, U, T, gpg = case["role"], case["U"], case["T"], case["gpg"]
     expect = RV.delegation(role, U, T, gpg)
@@ -39,6 +79,7 @@ def check_case(case):
                            str(exc)[:100]),
                         bucket=("false accept" if observed == "accept" else "false reject/class " + observed)
                         + " verify_delegation")
+    probes = history_probes(role, U, T, gpg)
     sat = satisfied_roles(case)
     delegated = set(T["signed"]["delegations"])
     only_untrusted = (role not in delegated and type(U["signed"]) is dict
@@ -51,7 +92,8 @@ def check_case(case):
         labs.append("other-role-satisfied")
     if only_untrusted:
         labs.append("role-only-in-untrusted")
-    return {"nontrivial": bool(nontrivial), "labels": labs, "gray": expect.kind == "gray"}
+    return {"nontrivial": bool(nontrivial), "labels": labs, "gray": expect.kind == "gray",
+            "count": {"history_probes": probes}}
 
 
 UNITS = [
